@@ -159,6 +159,56 @@ func runSeq(w *hx.Writer, id string, size int, ops []op) {
 	})
 }
 
+// ---------- sequential case with real waiting (expiry inside Get / Store) ----------
+
+type top struct {
+	o  op
+	at int64 // nominal time of the call, seconds after base
+}
+
+// runSeqT performs the script at its nominal times. The case is dropped (never
+// reported) when a call ran more than a second late: every emitted clock
+// reading is then at least two seconds away from every expiry in the script.
+func runSeqT(w *hx.Writer, id string, size int, script []top) {
+	s := newStore(size)
+	defer s.c.Close()
+	var opsC, obsC []string
+	for _, x := range script {
+		if d := time.Until(s.at(x.at)); d > 0 {
+			time.Sleep(d)
+		}
+		var evs []uint64
+		var r string
+		if x.o.kind == "store" {
+			before := s.rng()
+			r = s.do(x.o)
+			after := map[uint64]bool{}
+			for _, y := range s.rng() {
+				after[y.k] = true
+			}
+			for _, y := range before {
+				if !after[y.k] {
+					evs = append(evs, y.k)
+				}
+			}
+		} else {
+			r = s.do(x.o)
+		}
+		if late := time.Since(s.at(x.at)); late > time.Second {
+			w.Tally("seqt-dropped-late", 1)
+			return
+		}
+		obsC = append(obsC, r)
+		opsC = append(opsC, hx.Tuple(x.o.coq(), hx.Z(x.at), hx.NList(evs)))
+	}
+	w.Emit("seqt", hx.Case{
+		ID:   id,
+		Coq:  hx.App("CSeqT", hx.Z(int64(size)), hx.List(opsC), hx.List(obsC)),
+		Desc: map[string]any{"kind": "seqt", "size": size, "ops": len(script)},
+		FKey: "seqt",
+	})
+}
+
 var sizes = []int{-5, 0, 1, 10, 63, 64, 65, 100, 1000, 1023, 1024, 1025, 1087, 1088, 1100, 1151, 1152, 2000}
 
 func perShard(size int) int {
@@ -183,12 +233,18 @@ func genSeq(r *hx.RNG) (int, []op) {
 	}
 	pool = append(pool, s1+64*100, s1+64*101, (1<<40)+s0, ^uint64(0)-uint64(r.Intn(64)))
 	n := r.Range(15, 45)
-	if nCollide > 4 {
-		n += per
-	}
 	var ops []op
 	var exps []int64
 	tag := uint64(1)
+	if nCollide > 4 { // fill the shard first so that the random part evicts
+		for j := 0; j < per-r.Intn(3); j++ {
+			e := int64(3600 + r.Intn(8))
+			ops = append(ops, op{kind: "store", k: pool[j], v: tag, t: e})
+			exps = append(exps, e)
+			tag++
+		}
+		n = r.Range(12, 30)
+	}
 	for i := 0; i < n; i++ {
 		x := r.Intn(100)
 		switch {
@@ -255,11 +311,24 @@ func runConc(w *hx.Writer, id string, r *hx.RNG, size int, g int, scripts [][]op
 	evs := make([][]event, g)
 	start := make(chan struct{})
 	var wg sync.WaitGroup
+	// rounds: before round i every goroutine may wait (spinning) until all have finished
+	// round i-1, so that the calls of one round start together and overlap
+	rounds := 0
+	for t := 0; t < g; t++ {
+		if len(scripts[t]) > rounds {
+			rounds = len(scripts[t])
+		}
+	}
+	barrier := make([]bool, rounds)
+	for i := range barrier {
+		barrier[i] = r.Chance(2, 3)
+	}
+	var arrived atomic.Int64
 	yields := make([][]bool, g)
 	for t := 0; t < g; t++ {
-		yields[t] = make([]bool, len(scripts[t]))
+		yields[t] = make([]bool, rounds)
 		for i := range yields[t] {
-			yields[t][i] = r.Chance(1, 4)
+			yields[t][i] = r.Chance(1, 6)
 		}
 	}
 	var panics atomic.Int64
@@ -270,10 +339,23 @@ func runConc(w *hx.Writer, id string, r *hx.RNG, size int, g int, scripts [][]op
 			defer func() {
 				if recover() != nil {
 					panics.Add(1)
+					arrived.Add(int64(rounds)) // never block the others
 				}
 			}()
 			<-start
-			for i, o := range scripts[t] {
+			for i := 0; i < rounds; i++ {
+				if barrier[i] {
+					for spin := 0; arrived.Load() < int64(g*i); spin++ {
+						if spin%64 == 63 {
+							runtime.Gosched()
+						}
+					}
+				}
+				if i >= len(scripts[t]) {
+					arrived.Add(1)
+					continue
+				}
+				o := scripts[t][i]
 				if yields[t][i] {
 					runtime.Gosched()
 				}
@@ -283,6 +365,7 @@ func runConc(w *hx.Writer, id string, r *hx.RNG, size int, g int, scripts [][]op
 				evs[t] = append(evs[t],
 					event{inv, hx.App("Inv", hx.Ni(t+1), o.coq())},
 					event{end, hx.App("Res", hx.Ni(t+1), res)})
+				arrived.Add(1)
 			}
 		}(t)
 	}
@@ -408,6 +491,31 @@ func main() {
 	w := hx.NewWriter(o)
 	defer w.Close()
 
+	// catalogue: expiry as Get and Store see it (runs in the background, about 6 s)
+	var bg sync.WaitGroup
+	defer bg.Wait()
+	for i, size := range []int{10, 1100} {
+		id := fmt.Sprintf("cat:seqt:%d", i)
+		if !o.Want(id) {
+			continue
+		}
+		St := func(at int64, k, v uint64, e int64) top { return top{op{kind: "store", k: k, v: v, t: e}, at} }
+		Gt := func(at int64, k uint64) top { return top{op{kind: "get", k: k}, at} }
+		Lt := func(at int64) top { return top{op{kind: "len"}, at} }
+		script := []top{
+			St(0, 1, 11, 3), St(0, 65, 12, 3600), St(0, 2, 13, 3), Gt(0, 1), Gt(0, 2), Lt(0),
+			Gt(6, 1), Lt(6), // expired: hidden and removed by the lookup
+			Gt(6, 65), {op{kind: "range"}, 6}, // key 2 is expired but still stored
+			St(6, 3, 14, 3), Gt(6, 3), Lt(6), // storing an expired value is a no-op
+			{op{kind: "gc", t: 6}, 6}, Lt(6), Gt(6, 2), {op{kind: "range"}, 6},
+		}
+		bg.Add(1)
+		go func(id string, size int) {
+			defer bg.Done()
+			runSeqT(w, id, size, script)
+		}(id, size)
+	}
+
 	// catalogue: fills around the capacity of every size class
 	for _, size := range sizes {
 		capa := 64 * perShard(size)
@@ -458,7 +566,7 @@ func main() {
 	}
 
 	// generated
-	n := o.Count(160, 4000)
+	n := o.Count(260, 6000)
 	for i := 0; i < n; i++ {
 		id := fmt.Sprintf("seq:%d", i)
 		if !o.Want(id) {
@@ -468,7 +576,7 @@ func main() {
 		size, ops := genSeq(r)
 		runSeq(w, id, size, ops)
 	}
-	nc := o.Count(420, 12000)
+	nc := o.Count(800, 20000)
 	for i := 0; i < nc; i++ {
 		id := fmt.Sprintf("conc:%d", i)
 		if !o.Want(id) {
